@@ -314,6 +314,11 @@ func storeMXIDMappings(
 		}
 		// we already validated it is a valid roomversion, so this should be safe to use.
 		verImpl := MustGetRoomVersion(ev.Version())
+		// only the mapping of the room key that sent the event says whose key that is
+		if mapping.UserRoomKey != ev.SenderID() {
+			logrus.Error("mxid_mapping is not for the sender of the event")
+			continue
+		}
 		if err := validateMXIDMappingSignatures(ctx, ev, *mapping, keyRing, verImpl); err != nil {
 			logrus.WithError(err).Error("invalid signature for mxid_mapping")
 			continue
